@@ -198,7 +198,7 @@ end CV.Props.C01
 namespace CV.Props.C01
 
 /-- (facts, regenerated from the source on every run) **The source text the model transcribes is the text of the
-    current source**: the bodies (comments and layout removed) of the 32 functions the model behind C01 was written from and
+    current source**: the bodies (comments and layout removed) of the 56 functions the model behind C01 was written from and
     validated against.  Any edit of one of them breaks this theorem at build time; the check then searches with the
     property's own oracles for a failing input, and reports `no-failing-input-found` if it finds none: the model then
     has to be re-validated against the new text (and this block regenerated). -/
@@ -214,15 +214,29 @@ theorem source_decision_logic : CV.Facts.logicC01 = [
   "clover.DB.iterateDocs: { meta, err := db.getCollectionMeta(q.Collection(), tx) if err != nil { return err } nd := buildQueryPlan(q, db.getIndexes(tx, q.Collection(), meta), &consumerNode{consumer: consumer}) return execPlan(nd, tx) }", 
   "clover.iterNode.iterateFullCollection: { prefix := []byte(getDocumentKeyPrefix(nd.collection)) return iteratePrefix(prefix, tx, func(item store.Item) error { doc, err := d.Decode(item.Value) if err != nil { return err } if nd.filter == nil || nd.filter.Satisfy(doc) { return nd.CallNext(doc) } return nil }) }", 
   "clover.iterNode.iterateIndex: { iterFunc := func(docId string) error { doc, err := getDocumentById(nd.collection, docId, tx) if err != nil || doc == nil { return err } if nd.filter == nil || nd.filter.Satisfy(doc) { return nd.CallNext(doc) } return nil } err := nd.idxQuery.Run(iterFunc) return err }", 
+  "query..Field: { return &field{name: name} }", 
   "query..IsField: { _, ok := v.(*field) return ok }", 
+  "query..NewQuery: { return &Query{ collection: collection, criteria: nil, limit: -1, skip: 0, sortOpts: nil, } }", 
   "query..and: { return &BinaryCriteria{ OpType: LogicalAnd, C1: c1, C2: c2, } }", 
   "query..getFieldOrValue: { if cmpField, ok := value.(*field); ok { value = doc.Get(cmpField.name) } else if fStr, ok := value.(string); ok && strings.HasPrefix(fStr, \"$\") { fieldName := strings.TrimLeft(fStr, \"$\") value = doc.Get(fieldName) } return value }", 
   "query..newCriteria: { return &UnaryCriteria{ OpType: opType, Field: field, Value: value, } }", 
   "query..not: { return &NotCriteria{c} }", 
   "query..or: { return &BinaryCriteria{ OpType: LogicalOr, C1: c1, C2: c2, } }", 
+  "query.BinaryCriteria.And: { return and(c, other) }", 
+  "query.BinaryCriteria.Not: { return not(c) }", 
+  "query.BinaryCriteria.Or: { return or(c, other) }", 
   "query.BinaryCriteria.Satisfy: { if c.OpType == LogicalAnd { return c.C1.Satisfy(doc) && c.C2.Satisfy(doc) } return c.C1.Satisfy(doc) || c.C2.Satisfy(doc) }", 
+  "query.NotCriteria.And: { return and(c, other) }", 
+  "query.NotCriteria.Not: { return not(c) }", 
+  "query.NotCriteria.Or: { return or(c, other) }", 
   "query.NotCriteria.Satisfy: { return !c.C.Satisfy(doc) }", 
+  "query.Query.MatchFunc: { return q.Where(newCriteria(FunctionOp, \"\", p)) }", 
+  "query.Query.Where: { newQuery := q.copy() newQuery.criteria = c return newQuery }", 
+  "query.Query.copy: { return &Query{ collection: q.collection, criteria: q.criteria, limit: q.limit, skip: q.skip, sortOpts: q.sortOpts, } }", 
   "query.Query.satisfy: { if q.criteria == nil { return true } return q.criteria.Satisfy(doc) }", 
+  "query.UnaryCriteria.And: { return and(c, other) }", 
+  "query.UnaryCriteria.Not: { return not(c) }", 
+  "query.UnaryCriteria.Or: { return or(c, other) }", 
   "query.UnaryCriteria.Satisfy: { switch c.OpType { case ExistsOp: return c.exist(doc) case EqOp: return c.eq(doc) case LikeOp: return c.like(doc) case InOp: return c.in(doc) case GtOp, GtEqOp, LtOp, LtEqOp: return c.compare(doc) case ContainsOp: return c.contains(doc) case FunctionOp: return c.Value.(func(*d.Document) bool)(doc) } return false }", 
   "query.UnaryCriteria.compare: { normValue, err := internal.Normalize(getFieldOrValue(doc, c.Value)) if err != nil { return false } res := internal.Compare(doc.Get(c.Field), normValue) switch c.OpType { case GtOp: return res > 0 case GtEqOp: return res >= 0 case LtOp: return res < 0 case LtEqOp: return res <= 0 } panic(\"unreachable code\") }", 
   "query.UnaryCriteria.contains: { elems := c.Value.([]interface{}) fieldValue := doc.Get(c.Field) slice, _ := fieldValue.([]interface{}) if fieldValue == nil || slice == nil { return false } for _, elem := range elems { found := false actualValue, err := internal.Normalize(getFieldOrValue(doc, elem)) if err != nil { return false } for _, val := range slice { if internal.Compare(actualValue, val) == 0 { found = true break } } if !found { return false } } return true }", 
@@ -232,7 +246,17 @@ theorem source_decision_logic : CV.Facts.logicC01 = [
   "query.UnaryCriteria.like: { pattern := c.Value.(string) s, isString := doc.Get(c.Field).(string) if !isString { return false } matched, err := regexp.MatchString(pattern, s) return matched && err == nil }", 
   "query.field.Contains: { return newCriteria(ContainsOp, f.name, elems) }", 
   "query.field.Eq: { return newCriteria(EqOp, f.name, value) }", 
+  "query.field.Exists: { return newCriteria(ExistsOp, f.name, nil) }", 
+  "query.field.Gt: { return newCriteria(GtOp, f.name, value) }", 
+  "query.field.GtEq: { return newCriteria(GtEqOp, f.name, value) }", 
   "query.field.In: { return newCriteria(InOp, f.name, values) }", 
+  "query.field.IsFalse: { return f.Eq(false) }", 
+  "query.field.IsNil: { return f.Eq(nil) }", 
+  "query.field.IsNilOrNotExists: { return f.IsNil().Or(f.NotExists()) }", 
+  "query.field.IsTrue: { return f.Eq(true) }", 
+  "query.field.Like: { return newCriteria(LikeOp, f.name, pattern) }", 
+  "query.field.Lt: { return newCriteria(LtOp, f.name, value) }", 
+  "query.field.LtEq: { return newCriteria(LtEqOp, f.name, value) }", 
   "query.field.Neq: { return f.Eq(value).Not() }", 
   "query.field.NotExists: { return newCriteria(ExistsOp, f.name, nil).Not() }"] := by rfl
 
